@@ -172,6 +172,22 @@ def _prog(prog_idx):
                         nums += numpy.asarray(v if v is not None else -1.0, dtype=float).flatten().tolist()
                 except Exception as e:  # noqa
                     nums.append('raises ' + type(e).__name__)
+        # ... and with the unit left out: the configured DISPLAY unit (the shipped one under every storage configuration)
+        sc = 10.0 ** _prec(pp, pp.config.volume_display_unit)
+        try:
+            f = r.get_container_flows(res[name])
+            nums += (numpy.asarray(f['in'], dtype=float).flatten() * sc).tolist() + (numpy.asarray(f['out'], dtype=float).flatten() * sc).tolist()
+            v = r.get_amount_remaining(res[name])
+            nums += (numpy.asarray(v if v is not None else -1.0, dtype=float).flatten() * sc).tolist()
+        except Exception as e:  # noqa
+            nums.append('raises ' + type(e).__name__)
+    for sname in ('water', 'lipase'):
+        try:
+            nums.append(r.get_substance_used(subs[sname]) * 10.0 ** _prec(pp, 'U' if sname == 'lipase' else pp.config.moles_display_unit))
+        except ValueError:
+            nums.append('ValueError')
+        except Exception as e:  # noqa
+            nums.append('raises ' + type(e).__name__)
     return key, ['ok', nums]
 
 
